@@ -14,7 +14,10 @@ Inductive rbody :=
 | BClose (body : bytes).         (* neither: the body ends with the connection *)
 
 Record response := mkResp {
-  r_interim : list N;            (* status codes of interim (1xx) responses sent first *)
+  r_interim : list (N * list (bytes * bytes));
+                                 (* interim (1xx) responses sent first: status code and header lines -
+                                    ANY header lines, framing headers included; they belong to the interim
+                                    response and are discarded with it (RFC 9110 15.2) *)
   r_code : N;
   r_phrase : bytes;
   r_headers : list (bytes * bytes);
@@ -23,7 +26,8 @@ Record response := mkResp {
 Definition status_line (c : N) (phrase : bytes) : bytes :=
   HTTP11 ++ 32 :: show_dec c ++ 32 :: phrase ++ [13; 10].
 Definition header_line (h : bytes * bytes) : bytes := fst h ++ 58 :: snd h ++ [13; 10].
-Definition interim_bytes (c : N) : bytes := status_line c [] ++ [13; 10].
+Definition interim_bytes (i : N * list (bytes * bytes)) : bytes :=
+  status_line (fst i) [] ++ concat (map header_line (snd i)) ++ [13; 10].
 Definition chunk (d : bytes) : bytes := show_hexN (lenN d) ++ [13; 10] ++ d ++ [13; 10].
 Definition last_chunk : bytes := [48; 13; 10; 13; 10].
 
@@ -58,7 +62,8 @@ Definition no_body_status (hm : bool) (c : N) : bool := (c =? 204) || (c =? 304)
 
 (** well-formed for a request whose method is HEAD iff [hm] *)
 Definition wf_response (hm : bool) (r : response) : Prop :=
-  Forall (fun c => 100 <= c < 200) (r_interim r)
+  Forall (fun i => 100 <= fst i < 200
+                   /\ Forall (fun h => is_token (lower (fst h)) = true /\ ~ In 10 (snd h)) (snd i)) (r_interim r)
   /\ (r_code r < 100 \/ 200 <= r_code r)
   /\ ~ In 10 (r_phrase r)
   /\ Forall (fun h => is_token (lower (fst h)) = true
